@@ -119,6 +119,8 @@ pub struct WOutcome {
     pub expected_id: u64,
     /// a poll answered Pending although neither a wake-up nor a waker registration happened during it
     pub lost_wakeup: bool,
+    /// poll_send: the count it returned differs from what it took out of the buffer, or it took bytes and answered Pending
+    pub unframed_contract: Option<String>,
     pub panic: Option<String>,
     pub panic_state: String,
     pub polls: usize,
@@ -191,7 +193,18 @@ pub fn w_execute(case: &WCase, explore: bool) -> WOutcome {
                         panic!("write does not terminate");
                     }
                     set_op("poll_send");
+                    let before = buf.remaining();
                     let (r, woke) = cx_run_counted(|cx| with!(x, x.poll_send(cx, &mut buf)));
+                    let taken = before - buf.remaining();
+                    match &r {
+                        Poll::Ready(Ok(n)) if *n != taken => {
+                            o.unframed_contract.get_or_insert(format!("returned-count-differs-from-bytes-taken: returned {n}, took {taken} of {before}"));
+                        }
+                        Poll::Pending if taken != 0 => {
+                            o.unframed_contract.get_or_insert(format!("bytes-taken-but-pending: took {taken} of {before} and answered Pending (a caller going by the count offers them again)"));
+                        }
+                        _ => {}
+                    }
                     in_flight(r.is_pending());
                     if r.is_pending() && !woke {
                         o.lost_wakeup = true;
@@ -394,6 +407,10 @@ pub fn w_judge(case: &WCase, o: &WOutcome) -> Vec<(String, String)> {
     }
     if o.lost_wakeup {
         out.push(("C17:write:pending-without-wake-up".into(), format!("{ctx}: a write poll answered Pending although Quinn neither returned Pending nor was a waker registered or woken during the poll: the writer is never polled again and the rest of the buffer never reaches the peer")));
+    }
+    if let Some(c) = &o.unframed_contract {
+        let kind = c.split(':').next().unwrap_or("");
+        out.push((format!("C17:write:poll_send:{kind}"), format!("{ctx}: {c}")));
     }
     if o.send_ids.iter().any(|i| *i != o.expected_id) {
         out.push(("C17:write:send-id-wrong".into(), format!("{ctx}: send_id() values {:?}, Quinn's stream id {}", o.send_ids, o.expected_id)));
@@ -833,7 +850,7 @@ fn run(tier: Tier, seed: u64) -> i32 {
     let _ = &mut rep;
     rep.exhaustive = true;
     rep.rule = format!(
-        "the unmodified adapter source over the fakequinn stand-in. write path: frame sequences with payloads from {{0, 1, 5 bytes}} up to 3 frames, one 256 KiB frame, framed (send_data/poll_ready) and unframed (poll_send), on uni and bidi streams, an overlapping send_data inserted after every send_data, and one write fault of {{Stopped(c), ConnectionLost(ApplicationClosed(c)), ConnectionLost(TimedOut), ConnectionLost(Reset), ClosedStream, ZeroRttRejected}} from the k-th poll_write on (k = 0..4, c in {{0, 0x10c, 2^62-1}}), under EVERY poll_write answer sequence with <= {bound} deviations (accept 1 / half / n-1 bytes, Pending). read path: data of {{0, 1, 5, 40}} bytes x ending {{FIN, Reset(c), ConnectionLost(ApplicationClosed(c)), ConnectionLost(TimedOut), ConnectionLost(Reset), ClosedStream, open}} under every read_chunk answer sequence with <= {bound} deviations (chunk cuts, Pending), uni and bidi, with every operation sequence of length <= 3 over {{poll_data, recv_id, stop_sending(c)}} before the drain (identifier queries and stop_sending in every state: fresh, read pending, read completed, after FIN, after an error). Connection-level: all 8 ConnectionError variants x 3 codes on accept/open (connection and opener) and both datagram paths; close(code, reason); datagram bytes. After the terminal answer of a read poll_data is called twice more (a peer's reset must not turn into a clean end of stream). After a failed write one more send_data/poll_ready is issued, then reset(code); after a complete write poll_finish. Oracle: bytes seen by the stand-in = reference encoding of the buffers whose write completed (a prefix on error), ids constant, no panic, error classes and codes preserved - also on the write after the failed one (a stream-scoped STOP_SENDING never becomes a connection-level error). states = distinct (case, answer sequence) outcomes; non-trivial = executions with a deviation."
+        "the unmodified adapter source over the fakequinn stand-in. write path: frame sequences with payloads from {{0, 1, 5 bytes}} up to 3 frames, one 256 KiB frame, framed (send_data/poll_ready) and unframed (poll_send), on uni and bidi streams, an overlapping send_data inserted after every send_data, and one write fault of {{Stopped(c), ConnectionLost(ApplicationClosed(c)), ConnectionLost(TimedOut), ConnectionLost(Reset), ClosedStream, ZeroRttRejected}} from the k-th poll_write on (k = 0..4, c in {{0, 0x10c, 2^62-1}}), under EVERY poll_write answer sequence with <= {bound} deviations (accept 1 / half / n-1 bytes, Pending). read path: data of {{0, 1, 5, 40}} bytes x ending {{FIN, Reset(c), ConnectionLost(ApplicationClosed(c)), ConnectionLost(TimedOut), ConnectionLost(Reset), ClosedStream, open}} under every read_chunk answer sequence with <= {bound} deviations (chunk cuts, Pending), uni and bidi, with every operation sequence of length <= 3 over {{poll_data, recv_id, stop_sending(c)}} before the drain (identifier queries and stop_sending in every state: fresh, read pending, read completed, after FIN, after an error). Connection-level: all 8 ConnectionError variants x 3 codes on accept/open (connection and opener) and both datagram paths; close(code, reason); datagram bytes. After the terminal answer of a read poll_data is called twice more (a peer's reset must not turn into a clean end of stream). After a failed write one more send_data/poll_ready is issued, then reset(code); after a complete write poll_finish. poll_send: the count returned equals the bytes taken out of the caller's buffer, and nothing is taken when the answer is Pending. Oracle: bytes seen by the stand-in = reference encoding of the buffers whose write completed (a prefix on error), ids constant, no panic, error classes and codes preserved - also on the write after the failed one (a stream-scoped STOP_SENDING never becomes a connection-level error). states = distinct (case, answer sequence) outcomes; non-trivial = executions with a deviation."
     );
     rep.assumptions = vec![
         "fakequinn models the quinn 0.11 API subset the adapter uses; its answer alphabet is bound to real Quinn by the quinnreal conformance runs (accepted sizes and error variants observed on loopback lie inside the alphabet)".into(),
